@@ -415,6 +415,25 @@ example : IP.IsV6Spelling "1:02:003:0004::6:7:8".toList 0x0001000200030004000000
   stdV6Int_sound _ _ (by rfl)
 example : IP.IsV6Spelling "0:0:0:0:0:ffff:255.255.255.255".toList 0xFFFFFFFFFFFF := stdV6Int_sound _ _ (by decide +kernel)
 
+/-- **RFC 5952 canonicity of `str(IPv6Address(n))` — partial.**  Proved, on the zero pattern `zs` of the
+eight printed groups (`zs[i]` ⇔ group `i` prints as `"0"`): if the loop of `_compress_hextets` shortens at all
+it shortens the run `(s, len)` with `shortenedB zs s len` – at least two groups, all zero, no longer zero
+run anywhere, no equally long one further left (RFC 5952 §4.2.1–4.2.3, with bounded quantifiers) – and the
+text is exactly `groups-before :: groups-after`; if it does not shorten, no run of two or more zero groups
+exists and the text is the eight groups joined by colons.  Groups are printed by `'%x'` (lower case, no
+leading zeros: `toHex`).
+Full statement (NOT proved): with `gs := IP.groups n`, `IP.IsShortened gs s l → strV6 n = IP.compressedAt gs s l`
+and `(¬ ∃ s l, IP.IsShortened gs s l) → strV6 n = join ":" (gs.map IP.hexShort)`.  Missing: the two bridges
+`toHex g = IP.hexShort g` (g < 65536) and `shortenedB (zero pattern of gs) s l ↔ IP.IsShortened gs s l`. -/
+theorem strV6_canonical_partial (n : Nat) :
+    let X := (hextets n).map toHex
+    let zs := X.map (· == ['0'])
+    let st := runLoop {} 0 zs
+    (st.bestLen > 1 → ∃ s, st.bestStart = some s ∧ shortenedB zs s st.bestLen = true ∧
+      strV6 n = join [':'] (X.take s) ++ ':' :: ':' :: join [':'] (X.drop (s + st.bestLen))) ∧
+    (¬ st.bestLen > 1 → (∀ s k, s < 8 → k < 9 → zeroRun zs s k = false) ∧ strV6 n = join [':'] X) :=
+  strV6_choice n
+
 /-- **IPv6 rejects** (no silent truncation or coercion; this is the statement F16 violated before the
 regex was anchored): whenever the text constructor returns an object, then after `strip()` and the
 blank-to-slash rewrite the *whole* text (at most 49 characters) is `addr` (then `len = 128`) or
